@@ -593,7 +593,7 @@ func c08Run(j *jail.Jail, s *c08Scenario, dry []c08Sys, killAt int) (entries []c
 func c08Scenarios() []c08Scenario {
 	sizes := []int{0, 1, 70000}
 	if verifkit.Tier() == "thorough" {
-		sizes = []int{0, 1, 4096, 32768, 32769, 70000, 1<<20 + 1}
+		sizes = []int{0, 1, 4096, 32769, 70000, 1<<18 + 1}
 	}
 	var out []c08Scenario
 	key := "db/crash/2025/01/f.parquet"
@@ -619,7 +619,7 @@ func c08Scenarios() []c08Scenario {
 	asizes := []int{1, 70000}
 	prefixes := []int{1000}
 	if verifkit.Tier() == "thorough" {
-		asizes = []int{0, 1, 4096, 32769, 70000, 1<<20 + 1}
+		asizes = []int{0, 1, 32769, 70000, 1<<18 + 1}
 		prefixes = []int{0, 1000, 40000}
 	}
 	for _, sz := range asizes {
@@ -633,7 +633,7 @@ func c08Scenarios() []c08Scenario {
 	// nothing may be promoted, at any kill point or when the call runs to completion
 	shortSizes := []int{0, 40000}
 	if verifkit.Tier() == "thorough" {
-		shortSizes = []int{0, 1, 32768, 40000, 1 << 20}
+		shortSizes = []int{0, 1, 40000, 1 << 18}
 	}
 	for _, sz := range shortSizes {
 		for _, ow := range []bool{false, true} {
